@@ -31,8 +31,9 @@ Inductive sout :=
 | SRaise (e : sexn)
 | SCrash.                    (* the C code has undefined behaviour here *)
 
-(* one piece of a print_to format: literal text, "%s" with a C string, "%li" with an Int *)
-Inductive piece := PLit (t : list byte) | PStr (t : list byte) | PInt (z : Z).
+(* one piece of a print_to format: literal text, "%s" with a C string, "%li" with an Int,
+   "%s" with the target String itself *)
+Inductive piece := PLit (t : list byte) | PStr (t : list byte) | PInt (z : Z) | PSelf.
 
 Inductive sop :=
 | OAssign (v : list byte)            (* assign(s, $S(v)) *)
@@ -104,7 +105,11 @@ Definition dec_of_Z (z : Z) : list byte :=
   end.
 
 Definition render (p : piece) : list byte :=
-  match p with PLit t => t | PStr t => t | PInt z => dec_of_Z z end.
+  match p with PLit t => t | PStr t => t | PInt z => dec_of_Z z | PSelf => [] end.
+
+(* the text of a piece when the target currently reads cur *)
+Definition piece_text (cur : list byte) (p : piece) : list byte :=
+  match p with PSelf => cur | _ => render p end.
 
 (* ------------------------------------------------------------------ Murmur (hash_data of src/Hash.c) *)
 
@@ -180,6 +185,10 @@ Section Model.
      false: strcpy(s->val, val) with val fetched before the realloc / strcat(s->val, c_str(obj)) *)
   Variable assign_self_safe : bool.
   Variable concat_self_safe : bool.
+  (* true: String_Format_To renders into a temporary buffer before the realloc and copies it in;
+     false: vsprintf(s->val + pos, fmt, va) after the realloc — an argument pointing into the old
+     block is read after it was released *)
+  Variable format_self_safe : bool.
 
   (* String_New(self, args) with one argument: val = NULL, then String_Assign *)
   (* String_Assign: val = realloc(val, strlen(v)+1); strcpy(val, v) *)
@@ -261,14 +270,22 @@ Section Model.
   Definition m_format_to (b : buffer) (pos : nat) (text : list byte) : option buffer :=
     write (realloc b (format_alloc pos (length text))) pos (text ++ [0]).
 
-  (* print_to_with: one format_to per piece of the format, the position advances *)
+  (* print_to_with: one format_to per piece of the format, the position advances.  The varargs
+     are evaluated per piece: "%s" with the target itself passes the target's current buffer *)
   Fixpoint m_print_to (b : buffer) (pos : nat) (ps : list piece) : option (buffer * nat) :=
     match ps with
     | [] => Some (b, pos)
-    | p :: r => match m_format_to b pos (render p) with
-                | None => None
-                | Some b' => m_print_to b' (pos + length (render p)) r
-                end
+    | p :: r =>
+        match (match p with
+               | PSelf => if format_self_safe then c_str b else None
+               | _ => Some (render p)
+               end) with
+        | None => None
+        | Some text => match m_format_to b pos text with
+                       | None => None
+                       | Some b' => m_print_to b' (pos + length text) r
+                       end
+        end
     end.
 
   Definition lift (b : buffer) (r : option buffer) : buffer * sout :=
@@ -329,13 +346,14 @@ Definition occurs_at (v s : list byte) (i : nat) : bool := prefixb v (skipn i s)
 Definition first_occ (v s : list byte) : option nat :=
   find (occurs_at v s) (seq 0 (S (length s))).
 
-(* print_to(s, pos, fmt, ...): the rendered text replaces everything from pos on; a position
-   behind the terminator leaves the C string as it is (the text lands behind the NUL), and so does
-   a format without any piece (no format_to call is made) *)
-Definition spec_print (s : list byte) (pos : nat) (ps : list piece) : list byte :=
+(* print_to(s, pos, fmt, ...), piece by piece: the text replaces everything from pos on; a position
+   behind the terminator leaves the C string as it is (the text lands behind the NUL); a format
+   without any piece makes no format_to call at all.  Returns the new string and position. *)
+Fixpoint spec_print (s : list byte) (pos : nat) (ps : list piece) : list byte * nat :=
   match ps with
-  | [] => s
-  | _ => if pos <=? length s then firstn pos s ++ concat (map render ps) else s
+  | [] => (s, pos)
+  | p :: r => let text := piece_text s p in
+              spec_print (if pos <=? length s then firstn pos s ++ text else s) (pos + length text) r
   end.
 
 Definition spec_step (s : list byte) (o : sop) : list byte * sout :=
@@ -353,7 +371,7 @@ Definition spec_step (s : list byte) (o : sop) : list byte * sout :=
   | OLen => (s, SNat (length s))
   | OCStr => (s, SChars s)
   | OHash => (s, SHash (murmur64 s))
-  | OPrint pos ps => (spec_print s pos ps, SNat (pos + length (concat (map render ps))))
+  | OPrint pos ps => (fst (spec_print s pos ps), SNat (snd (spec_print s pos ps)))
   | OAssignSelf => (s, SUnit)
   | OConcatSelf => (s ++ s, SUnit)
   | ORemSelf => ([], SUnit)
@@ -374,7 +392,7 @@ Fixpoint spec_run (s : list byte) (ops : list sop) : list sout * list byte :=
 Definition nulfree (v : list byte) : Prop := Forall (fun c => c <> 0) v.
 
 Definition piece_ok (p : piece) : Prop :=
-  match p with PLit t | PStr t => nulfree t | PInt _ => True end.
+  match p with PLit t | PStr t => nulfree t | PInt _ | PSelf => True end.
 
 Definition op_ok (o : sop) : Prop :=
   match o with
